@@ -91,6 +91,15 @@ def run_case(c):
         return {"status": "ok", "stats": {"recursive_grammar_skipped": 1}, "nontrivial": False}
     except KeyError:
         return {"status": "ok", "stats": {"sliced_grammar_without_start": 1}, "nontrivial": False}
+    def _letters_of(r_, acc):
+        if isinstance(r_, tuple):
+            if r_ and r_[0] == "let":
+                acc.add(r_[1])
+            else:
+                for x_ in r_:
+                    _letters_of(x_, acc)
+        return acc
+    all_letters = _letters_of(R0, set())
     old_cap = fnodes.MAX_REPETITIONS
     cap = c.get("cap", 3)
     distinct = 0
@@ -168,6 +177,29 @@ def run_case(c):
                         rl = ma.deriv(rl, a_, lenient=True)
                     if set(rem_extra) <= (ma.first(rl) - exp):
                         parts.append("repetition-iteration-abandoned-midway")
+                        rem_extra = []
+                if rem_extra and letters:
+                    # (d) one message type used by several senders in alternative branches: the history is also matched
+                    #     against the branch that expects the type from ANOTHER party (the history parser works on message
+                    #     types; party annotations of an ambiguous type are taken over from the history). Counterfactual:
+                    #     a sender-blind reading of the history - every step may be taken by any offered letter of the same
+                    #     message type and recipient - explains exactly these extra options.
+                    states = [R0]
+                    for a_ in letters:
+                        nxt = []
+                        for st_ in states:
+                            for b_ in ma.first(st_):
+                                if b_[2] == a_[2] and b_[1] == a_[1]:      # same type, same recipient, ANY sender
+                                    d_ = ma.deriv(st_, b_)
+                                    if d_ != ma.EMPTY and d_ not in nxt:
+                                        nxt.append(d_)
+                        states = nxt[:24]
+                    blind = set()
+                    for st_ in states:
+                        blind |= set(ma.first(st_))
+                    shared = any(len({x[0] for x in all_letters if x[2] == e_[2]}) > 1 for e_ in all_letters)
+                    if shared and set(rem_extra) <= (blind - exp):
+                        parts.append("same-type-other-sender-branch-accepted")
                         rem_extra = []
                 if parts and not rem_missing and not rem_extra:
                     mech = "+".join(parts)
